@@ -93,7 +93,7 @@ stats! {
     f_layout_runs, f_noise_alloc, f_dtor_panic, f_dtor_script, f_script_action, f_nested_collection, f_elided_unadopt,
     f_unmatched_unadopt, f_partial_recording, f_same_handle_self_adopt, f_weak_inside_value, f_weak_upgrade_in_dtor,
     f_weak_upgrade_dying_peer_none, f_consuming_on_adopted, f_dead_handle_drop_in_dtor, f_dead_handle_clone_in_dtor,
-    f_small_stack, f_self_adopt_clone, f_script_combos, f_log_trace_runs, f_clone_panic,
+    f_small_stack, f_self_adopt_clone, f_script_combos, f_log_trace_runs, f_clone_panic, f_dtor_panic_early,
     // probes
     p_path_plain, p_path_zero_links, p_path_cycle, p_cycle_members, p_cycle_survivors, p_trace_calls, p_trace_pops,
     p_trace_visits, p_trace_scanned, p_stale_access, p_group_collected, p_group_ge3, p_outside_survived_collection,
